@@ -3,6 +3,7 @@
 import json, os, glob, re
 ROOT = os.path.dirname(os.path.dirname(os.path.abspath(__file__)))
 rows = []
+stats = {"n": 0, "first_caught": 0, "first_missed": [], "first_undecided": [], "now_missed": []}
 for d in sorted(glob.glob(os.path.join(ROOT, "seeded", "*"))):
     mp = os.path.join(d, "meta.json")
     if not os.path.exists(mp):
@@ -18,12 +19,28 @@ for d in sorted(glob.glob(os.path.join(ROOT, "seeded", "*"))):
     first = (c.get("our_check_output") or [""])[0]
     sig = re.findall(r"\[([^\]]+)\]\s*$", first)
     prev = m.get("previous_runs", [])
+    first_rc = prev[0].get("our_check_rc") if prev else rc
+    stats["n"] += 1
+    if first_rc == 1:
+        stats["first_caught"] += 1
+    elif first_rc == 0:
+        stats["first_missed"].append(sid)
+    else:
+        stats["first_undecided"].append(sid)
+    if rc != 1:
+        stats["now_missed"].append(sid)
     note = ""
     if prev and any(x.get("our_check_rc") == 0 for x in prev) and rc == 1:
         note = "(first run: MISSED; check strengthened, then re-confirmed)"
     rows.append("| %s | %s | %s | %s | %s%s |" % (sid, summ, needs, "yes" if ok else "NO: see confirm.log", verdict,
                 (" `" + sig[0][:60] + "`") if sig else "") + (" " + note if note else ""))
-table = ("\n\n| seed | change (author's summary) | needs | confirmed (build / 61 tests / demo) | our quick check |\n|---|---|---|---|---|\n" + "\n".join(rows) + "\n")
+summary = ("\n\n**Summary (generated):** %d seeds; on their FIRST confirmation run our quick check caught %d, missed %d (%s)%s. "
+           "Every miss was answered by strengthening the check in general terms (a class of inputs / schedules, never the seeded line), "
+           "then re-confirmed; currently not caught: %s.\n" % (
+               stats["n"], stats["first_caught"], len(stats["first_missed"]), ", ".join(stats["first_missed"]) or "none",
+               (", undecided %d (%s)" % (len(stats["first_undecided"]), ", ".join(stats["first_undecided"]))) if stats["first_undecided"] else "",
+               ", ".join(stats["now_missed"]) or "none"))
+table = summary + ("\n\n| seed | change (author's summary) | needs | confirmed (build / 61 tests / demo) | our quick check |\n|---|---|---|---|---|\n" + "\n".join(rows) + "\n")
 p = os.path.join(ROOT, "DESIGN.md")
 s = open(p).read()
 a = s.index("### 9.5 Independently seeded changes")
